@@ -640,6 +640,8 @@ BOUNDS = dict(
           'covariates as a separate block of rows in another ID order); '
           'replicate measurements (the same reading twice, two readings at '
           'one time); dosed model with 3 sets of per-individual dose rows '
+          '(plus 4 histories: an earlier dosed dataset set first, the last '
+          'one undosed / dosed differently) '
           '(with duration, bolus, without time, none) incl. no duration '
           'column; 7 population models (pooled, heterogeneous, non-centred, '
           'multi-dimensional, 1-2 covariates) set before or after the data; '
